@@ -61,7 +61,7 @@ REQUIRED_LABELS = {"reorder": 0.08, "wrapper": 0.2, "registered-call": 0.2, "thr
 
 
 def budget(tier):
-    n = int(os.environ.get("KV_EXAMPLES", 0)) or (1600 if tier == "quick" else 12000)
+    n = int(os.environ.get("KV_EXAMPLES", 0)) or (2400 if tier == "quick" else 12000)
     return {"examples": n, "shards": 16, "wall": 100 if tier == "quick" else 1200, "shrink": 60 if tier == "quick" else 240}
 
 
